@@ -23,7 +23,7 @@ warnings.filterwarnings('ignore')
 from common import Str, sx
 
 ID = 'C02'
-LEAN_MODULES = ['Cellml.Props.C02']
+LEAN_MODULES = ['Cellml.C02.Table', 'Cellml.Props.C02']
 N = {'quick': 500, 'thorough': 20000}
 RULE = ('exhaustive tier (always): every tag of the generated operator table and the 6 explicit operator handlers x '
         'arity 0..4 x operand mode (distinct symbols / numeric literals incl. negative, zero, non-integer / ill-sorted), '
@@ -247,6 +247,8 @@ def fn_mod_floor(a, b):
         raise Undef('mod 0')
     if mpmath.isinf(a) or mpmath.isinf(b):
         raise Undef('mod inf')
+    if abs(b) < mpf(10) ** -6 * max(1, abs(a)):
+        raise Undef('tiny divisor')
     guard_int(a / b)
     return a - b * mpmath.floor(a / b)
 
@@ -257,6 +259,8 @@ def fn_rem_trunc(a, b):
         raise Undef('rem 0')
     if mpmath.isinf(a) or mpmath.isinf(b):
         raise Undef('rem inf')
+    if abs(b) < mpf(10) ** -6 * max(1, abs(a)):
+        raise Undef('tiny divisor')
     q = a / b
     guard_int(q)
     if q < 0 and q != mpmath.nint(q):
@@ -707,6 +711,70 @@ def canon_class(name):
     return o.__name__ if isinstance(o, type) else name
 
 
+def rebuild(t):
+    """issue to SymPy exactly the calls the MODEL says the code issues (same constructors, same argument order)"""
+    import sympy
+    k = t[0]
+    if k == 'num':
+        q = Fraction(t[1])
+        return sympy.Float(q.numerator / q.denominator)
+    if k == 'int':
+        return sympy.Integer(int(t[1]))
+    if k == 'special':
+        return sympy.Float(float(t[1]))
+    if k == 'sym':
+        return sympy.Symbol(str(t[1]))
+    if k == 'const':
+        return {'E': sympy.E, 'pi': sympy.pi, 'oo': sympy.oo, 'nan': sympy.nan, 'true': sympy.true, 'false': sympy.false}[t[1]]
+    if k == 'tuple':
+        return (rebuild(t[1]), rebuild(t[2]))
+    if k == 'pylist':
+        return [rebuild(x) for x in t[1:]]
+    if k != 'app':
+        raise ValueError('not a term: %s' % k)
+    h, args = t[1], [rebuild(a) for a in t[2:]]
+    if h == 'neg':
+        return -args[0]
+    if h == 'sub':
+        return args[0] - args[1]
+    if h == 'div':
+        return args[0] / args[1]
+    if h == 'pow':
+        return args[0] ** args[1]
+    if h == 'root':
+        return sympy.root(args[0], args[1])
+    if h == 'logb':
+        return sympy.log(args[0], args[1])
+    if h == 'Derivative':
+        return sympy.Derivative(args[0], args[1], args[2], evaluate=False)
+    if h == 'DerivativeEval':
+        return sympy.Derivative(args[0], args[1], args[2], evaluate=args[3])
+    if h == 'Piecewise':
+        return sympy.Piecewise(*[(e, True if c is sympy.true else c) for e, c in args])
+    return getattr(sympy, h)(*args)
+
+
+def same_calls(m, obs):
+    """True: SymPy, given the model's calls, builds exactly what the implementation returned / raises the same error.
+    False: it builds something else. None: could not be established (time-out)."""
+    try:
+        with warnings.catch_warnings():
+            warnings.simplefilter('ignore')
+            r = with_timeout(IMPL_TIMEOUT, rebuild, m)
+    except Timeout:
+        return True if obs['out'] == 'err:Timeout' else None
+    except RecursionError:
+        return obs['out'] == 'err:RecursionError'
+    except Exception as e:
+        return obs['out'] == 'err:' + type(e).__name__
+    if obs['out'] != 'ok':
+        return False
+    try:
+        return ser(r) == obs['term']
+    except Exception:
+        return None
+
+
 def compare_value(m, o, where):
     """model Python value m against implementation value o, exactly (non-expressions)"""
     k = m[0]
@@ -731,27 +799,37 @@ def compare(case, obs, replies):
         return 'model reply malformed: %r' % (rep,)
     if rep[0] == 'outside':
         return None
-    if obs['out'] in SYMPY_INTERNAL:
-        return None     # SymPy's own evaluation machinery gave up while building the expression: outside the model
-    if obs['out'] != 'ok' and eager_error(obs) and (rep[0] == 'err' or term_undefined_everywhere(rep[1])):
-        return None     # SymPy evaluated an undefined literal (1/0, Mod by 0, ordering of complex numbers) while building
     if rep[0] == 'err':
+        if obs['out'] in SYMPY_INTERNAL or (obs['out'] != 'ok' and eager_error(obs)):
+            return None     # SymPy's numeric evaluation of an earlier sibling raised first: outside the model
         if obs['out'] != 'err:' + rep[1]:
             return 'model raises %s, implementation %s' % (rep[1], obs['out'] + (' ' + obs.get('str', obs.get('msg', ''))))
         return None
     if rep[0] != 'ok':
         return 'model reply malformed: %r' % (rep,)
+    m = rep[1]
+    if m[0] in ('cls', 'wrapped', 'rel'):
+        if obs['out'] != 'ok':
+            return 'model returns %s, implementation %s (%s)' % (sx_short(m), obs['out'], obs.get('msg'))
+        return compare_value(m, obs['term'], 'result')
+    # (A) exact: the calls the model says the code issues, issued to SymPy, give exactly the implementation's result
+    same = same_calls(m, obs)
+    if same and not case.get('kind', '').startswith(('op-', 'const')):
+        return None
     if obs['out'] != 'ok':
-        return 'model returns %s, implementation %s (%s)' % (sx_short(rep[1]), obs['out'], obs.get('msg'))
-    m, o = rep[1], obs['term']
-    if m[0] in ('cls', 'wrapped', 'rel', 'tuple', 'pylist'):
-        return compare_value(m, o, 'result')
+        if same:
+            return None
+        return 'model returns %s, implementation %s (%s)' % (sx_short(m), obs['out'], obs.get('msg'))
+    o = obs['term']
+    if m[0] in ('tuple', 'pylist'):
+        return None if same else compare_value(m, o, 'result')
     if o[0] in ('cls', 'callable', 'tuple', 'pylist'):
         return 'model returns the expression %s, implementation the non-expression %s' % (sx_short(m), o)
+    # (B) meaning: the value of the model's term (Ev: what each class / Python operator computes) against the value
+    #     SymPy itself gives the expression it built — always in the exhaustive operator tier, else only if (A) failed
     heads = heads_of_term(m, [])
     if 'DerivativeEval' in heads:
-        return None
-    n_cmp = 0
+        return None if same is not False else 'evaluated derivative: SymPy builds something else from the model\'s calls'
     for i in range(N_ENVS):
         try:
             a = two_precisions(lambda: ev_term(m, i))
@@ -760,10 +838,10 @@ def compare(case, obs, replies):
         c = close(a, obs['vals'][i])
         if c is None:
             continue
-        n_cmp += 1
         if not c:
-            return 'environment %d: model term %s is worth %s, SymPy says %s is worth %s' % (
-                i, sx_short(m), nstr(a), obs.get('str'), obs['vals'][i])
+            return 'environment %d: model term %s is worth %s, SymPy says %s is worth %s%s' % (
+                i, sx_short(m), nstr(a), obs.get('str'), obs['vals'][i],
+                '' if same is not False else ' (and SymPy builds something else from the model\'s calls)')
     if case.get('struct'):
         want = sorted(canon_class(h) for h in heads if h in STABLE_HEADS or h in REL_CANON)
         got = sorted(h for h in heads_of_term(o, []) if h in STABLE_HEADS or h in REL_CANON.values())
@@ -1198,6 +1276,11 @@ def oracle(case, obs):
             return [{'key': 'harness', 'detail': obs.get('msg')}]
         if undefined_everywhere(tree):
             return []
+        taints = taints_anywhere(tree) if eager_error(obs) else set()
+        if taints:
+            # SymPy met the deviating value (a complex root, a remainder of the wrong sign) while building and gave up
+            return [{'key': k + ':rejected', 'detail': '%s raised for the valid tree %s: %s'
+                     % (obs['out'], xml_of(tree)[:300], obs.get('msg'))} for k in sorted(taints)]
         if piecewise_in_condition(tree):
             key = 'piecewise-in-condition:rejected'
         elif obs['out'] in SYMPY_INTERNAL:
@@ -1236,6 +1319,27 @@ def oracle(case, obs):
                           % (xml_of(tree)[:300], env, nstr(a), obs.get('str'), o)})
         break
     return fails[:8]
+
+
+def taints_anywhere(tree):
+    """known-deviation regions met by ANY subexpression at any sample environment (SymPy evaluates eagerly, also
+    branches that are never taken)"""
+    found = set()
+    for sub in walk(tree):
+        if not (sub[0] == 'el' and sub[1] in ('apply', 'piecewise')):
+            continue
+        for i in range(N_ENVS):
+            _TAINT.clear()
+            try:
+                with mp.workdps(40):
+                    ref(sub, i, (False, False))
+            except Undef:
+                pass
+            except Exception:
+                pass
+            found |= _TAINT
+    _TAINT.clear()
+    return found
 
 
 def undefined_everywhere(tree):
